@@ -17,14 +17,22 @@ def project(raw):
     return [proj_types(raw, pick), raw[3], raw[4], [c[0], len(c[1][0]) if c[0] == 0 and c[1] else -1]]
 
 
+def oracle(ctx):
+    # "switching html changes strings only by adding tags and escapes": the html strings,
+    # with formatting tags stripped and entities unescaped, are the plain strings
+    proj = [f for f in oracles.o_html(ctx) if f[0] == "html_projection"]
+    return oracles.o_options(ctx) + proj
+
+
 SPEC = docsweep.Spec(
     prop="C19",
     rule=("docgen packages x all 4 option settings compared pairwise on /repo's values (structure across html; "
           "cells across duplicate_merged_cells; image folder in thorough); non-trivial = has merged cells or formatting; "
           "distinct = package bytes"),
-    knobs={"merged_cells": 0.7, "tables": 0.45},
+    knobs={"merged_cells": 0.7, "tables": 0.45, "links": 0.35},
+    edge=["alt_text_markup"],
     project=project,
-    oracle=oracles.o_options,
+    oracle=oracle,
     nontrivial=lambda fs: bool(fs & {"merged_cells", "heading", "corpus"} or {f for f in fs if f.startswith("fmt_")}),
     n_quick=120, n_thorough=4000,
 )
